@@ -514,3 +514,209 @@ func (w *world) chunkScenario(n int) error {
 	}
 	return expect("after the connector deleted all and close + reopen", 0, 0)
 }
+
+// messageBytes: UID -> hash of the exact BODY[] bytes of the messages of one mailbox (bad: unfetchable / size mismatch).
+func (w *world) messageBytes(mbox string) (map[int]string, []string, error) {
+	c, err := w.p.login()
+	if err != nil {
+		return nil, nil, err
+	}
+	defer c.Close()
+	if _, err := okCmd(c, "EXAMINE "+imapcQuote(mbox)); err != nil {
+		return nil, nil, err
+	}
+	r, err := okCmd(c, "UID FETCH 1:* (UID)")
+	if err != nil {
+		return nil, nil, err
+	}
+	out := map[int]string{}
+	var bad []string
+	for _, e := range imapcEvs(r) {
+		if e.Kind != "FETCH" {
+			continue
+		}
+		r2, err := c.Cmd(fmt.Sprintf("UID FETCH %d (RFC822.SIZE BODY.PEEK[])", e.UID))
+		if err != nil {
+			return nil, nil, err
+		}
+		if r2.Status != "OK" {
+			bad = append(bad, fmt.Sprintf("%s uid %d: %s %s", mbox, e.UID, r2.Status, r2.Text))
+			continue
+		}
+		for _, b := range imapcEvs(r2) {
+			if b.Kind == "FETCH" && len(b.Lits) > 0 {
+				lit := b.Lits[len(b.Lits)-1]
+				out[e.UID] = litSHAFull(lit)
+				if m := reSize.FindStringSubmatch(b.Raw); m != nil && m[1] != fmt.Sprint(len(lit)) {
+					bad = append(bad, fmt.Sprintf("%s uid %d: RFC822.SIZE %s but BODY[] has %d bytes", mbox, e.UID, m[1], len(lit)))
+				}
+			}
+		}
+	}
+	c.Cmd("LOGOUT")
+	return out, bad, nil
+}
+
+func sameBytes(a, b map[int]string) string {
+	for u, x := range a {
+		if b[u] != x {
+			return fmt.Sprintf("uid %d: bytes %s before, %s now", u, x, b[u])
+		}
+	}
+	if len(a) != len(b) {
+		return fmt.Sprintf("%d messages before, %d now", len(a), len(b))
+	}
+	return ""
+}
+
+// tornRefillScenario: the cache file of a listed message is lost; the next FETCH downloads the message again and
+// refills the cache — and the process dies INSIDE that store.Set, leaving a prefix of the file (created only, header,
+// header + nonce, half a block, all but one byte). After the restart every listed message must be served with its
+// exact bytes: a cut file has to be recognised as such (and the message downloaded again), never served.
+func (w *world) tornRefillScenario() error {
+	res := w.ctx.Res
+	pfx := "TR_"
+	d, err := prepAB(w, pfx, 2, false)
+	closeAll(d)
+	if err != nil {
+		return err
+	}
+	cuts := []int{0, 1, 2, 3, 4}
+	victimRID := pfx + "r1"
+	if w.ctx.Tier == "thorough" {
+		// a message whose cache file has several sealed blocks: also cut exactly after the first full block
+		if err := w.mustPush(&upd{Kind: "MessagesCreated", Items: []mcItem{{RID: pfx + "rbig", Marker: pfx + "BIG", Mboxes: []string{pfx + "a"}}}}); err != nil {
+			return err
+		}
+		cuts = append(cuts, 5)
+		victimRID = pfx + "rbig"
+	}
+	before, bad, err := w.messageBytes(pfx + "A")
+	if err != nil {
+		return err
+	}
+	if len(bad) > 0 || len(before) < 2 {
+		return fmt.Errorf("torn refill: cannot read the messages: %v", bad)
+	}
+	snap, err := w.snap()
+	if err != nil {
+		return err
+	}
+	victim := msByRID(snap, victimRID)
+	if victim == nil {
+		return fmt.Errorf("torn refill: message not found")
+	}
+	for _, cut := range cuts {
+		canon := fmt.Sprintf("cache file of a listed message lost; FETCH downloads it again; the process dies inside the refilling store.Set (file cut: %s); restart; FETCH", cutName(cut))
+		w.ctx.Current(canon, nil)
+		w.cleanQuit("torn refill")
+		os.Remove(filepath.Join(storeDirOf(w.dir), victim.IID))
+		if err := w.restart(""); err != nil {
+			return err
+		}
+		if _, err := w.p.call(req{Op: "arm", K: 0, Mode: "tear", Cut: cut}); err != nil {
+			return err
+		}
+		w.messageBytes(pfx + "A") // dies inside the refill
+		if !w.p.died(5 * time.Second) {
+			w.p.call(req{Op: "disarm"})
+			res.Count("not-fired:tornrefill")
+			continue
+		}
+		if err := w.restart(""); err != nil {
+			res.Fail("restart-failed | "+canon, err.Error(), nil)
+			return err
+		}
+		res.Evaluations++
+		res.Nontrivial(canon)
+		for _, when := range []string{"first FETCH after the restart", "second FETCH"} {
+			now, bad, err := w.messageBytes(pfx + "A")
+			if err != nil {
+				return err
+			}
+			if diff := sameBytes(before, now); diff != "" || len(bad) > 0 {
+				res.Fail("torn-cache-file-served | "+canon+" | "+when, fmt.Sprintf("%s %v", diff, bad), nil)
+			}
+		}
+	}
+	return nil
+}
+
+func cutName(cut int) string {
+	return []string{"created, nothing written", "header only", "header + nonce, no data block", "half of the sealed block", "all but the last byte", "first full block"}[cut]
+}
+
+// repairScenario: the cache file of a listed message is damaged AND LONGER than the file that replaces it (here: the
+// real file followed by foreign bytes, header destroyed). FETCH notices, downloads the message again and rewrites the
+// file; then the connector loses the message and the server is restarted: the rewritten file alone must serve the exact bytes.
+func (w *world) repairScenario() error {
+	res := w.ctx.Res
+	pfx := "RP_"
+	canon := "cache file of a listed message damaged and longer than its replacement; FETCH repairs it; the connector loses the message; restart; FETCH"
+	w.ctx.Current(canon, nil)
+	d, err := prepAB(w, pfx, 2, false)
+	closeAll(d)
+	if err != nil {
+		return err
+	}
+	before, bad, err := w.messageBytes(pfx + "A")
+	if err != nil {
+		return err
+	}
+	if len(bad) > 0 || len(before) != 2 {
+		return fmt.Errorf("repair: cannot read the messages: %v", bad)
+	}
+	snap, err := w.snap()
+	if err != nil {
+		return err
+	}
+	victim := msByRID(snap, pfx+"r1")
+	if victim == nil {
+		return fmt.Errorf("repair: message not found")
+	}
+	w.cleanQuit("repair")
+	path := filepath.Join(storeDirOf(w.dir), victim.IID)
+	if b, err := os.ReadFile(path); err == nil {
+		junk := make([]byte, len(b)+700)
+		for i := range junk {
+			junk[i] = byte(37 + i*11)
+		}
+		copy(junk[3:], b) // shifted: no valid header any more, and 700 bytes longer
+		os.WriteFile(path, junk, 0o600)
+	}
+	if err := w.restart(""); err != nil {
+		return err
+	}
+	res.Evaluations++
+	res.Nontrivial(canon)
+	now, bad, err := w.messageBytes(pfx + "A")
+	if err != nil {
+		return err
+	}
+	if diff := sameBytes(before, now); diff != "" || len(bad) > 0 {
+		res.Fail("damaged-cache-file-not-repaired | "+canon+" | FETCH with the damaged file", fmt.Sprintf("%s %v", diff, bad), nil)
+	}
+	if _, err := w.p.call(req{Op: "forget", Name: pfx + "r1"}); err != nil {
+		return err
+	}
+	w.noRedeliver[pfx+"r1"] = true
+	for _, how := range []string{"close + reopen", "kill + restart"} {
+		if how == "close + reopen" {
+			w.cleanQuit("repair")
+		} else {
+			w.p.kill()
+		}
+		if err := w.restart(""); err != nil {
+			return err
+		}
+		now, bad, err := w.messageBytes(pfx + "A")
+		if err != nil {
+			return err
+		}
+		res.Evaluations++
+		if diff := sameBytes(before, now); diff != "" || len(bad) > 0 {
+			res.Fail("repaired-cache-file-unreadable | "+canon+" | after "+how+", the connector no longer has the message", fmt.Sprintf("%s %v", diff, bad), nil)
+		}
+	}
+	return nil
+}
